@@ -265,7 +265,16 @@ func runSolver(sp solverSpec, query string, file string, timeout time.Duration, 
 	_ = cmd.Run()
 	el := time.Since(t0).Seconds()
 	text := out.String()
-	first := strings.TrimSpace(strings.SplitN(text, "\n", 2)[0])
+	// the verdict is the first line that is not a solver warning (z3: "WARNING: ... cannot be used in patterns")
+	first := ""
+	for _, ln := range strings.Split(text, "\n") {
+		ln = strings.TrimSpace(ln)
+		if ln == "" || strings.HasPrefix(ln, "WARNING") {
+			continue
+		}
+		first = ln
+		break
+	}
 	st := "error"
 	switch {
 	case first == "unsat":
